@@ -152,6 +152,21 @@ func (m *Module) EmitBinOp(x, y Value, op wat.OpCode) (insts []wat.Inst, ret_typ
 			insts = append(insts, m.COMPLEX64.(*Complex64).emitDiv()...)
 		} else if ret_type.Equal(m.COMPLEX128) {
 			insts = append(insts, m.COMPLEX128.(*Complex128).emitDiv()...)
+		} else if wt := toWatType(ret_type); wt == (wat.ValueType)(wat.I32{}) || wt == (wat.ValueType)(wat.I64{}) {
+			// the most negative value divided by -1 wraps around in the language;
+			// the wasm instruction traps, so x / -1 is computed as 0 - x
+			insts = nil
+			insts = append(insts, y.EmitPushNoRetain()...)
+			insts = append(insts, NewConst("-1", ret_type).EmitPushNoRetain()...)
+			insts = append(insts, wat.NewInstEq(wt))
+			var neg, div []wat.Inst
+			neg = append(neg, NewConst("0", ret_type).EmitPushNoRetain()...)
+			neg = append(neg, x.EmitPushNoRetain()...)
+			neg = append(neg, wat.NewInstSub(wt))
+			div = append(div, x.EmitPushNoRetain()...)
+			div = append(div, y.EmitPushNoRetain()...)
+			div = append(div, wat.NewInstDiv(wt))
+			insts = append(insts, wat.NewInstIf(neg, div, []wat.ValueType{wt}))
 		} else {
 			insts = append(insts, wat.NewInstDiv(toWatType(ret_type)))
 		}
